@@ -18,7 +18,8 @@ Open Scope Z_scope.
 (* `valid stations evs` (Proofs/SimSkel.v) unfolds to:
      every event is  EPlugin ts x  with ts = arrival x, station x registered, 0 <= arrival x < departure x,
                  or  ERecompute ts with 0 <= ts;
-     session ids are pairwise distinct;
+     (session id, station) pairs are pairwise distinct — two sessions may carry the same id on
+     different stations;
      two sessions on one station never overlap:  departure x <= arrival y \/ departure y <= arrival x
      (back-to-back, departure x = arrival y, is allowed). *)
 Theorem C01_valid_unfold : forall stations evs,
@@ -28,8 +29,8 @@ Theorem C01_valid_unfold : forall stations evs,
                     | ERecompute ts => 0 <= ts
                     | EUnplug _ _ => False
                     end) evs) /\
-  NoDup (map sid (sessions_of evs)) /\
-  (forall x y, In x (sessions_of evs) -> In y (sessions_of evs) -> sid x <> sid y ->
+  NoDup (map (fun x => (sid x, s_station x)) (sessions_of evs)) /\
+  (forall x y, In x (sessions_of evs) -> In y (sessions_of evs) -> (sid x, s_station x) <> (sid y, s_station y) ->
      s_station x = s_station y -> s_departure x <= s_arrival y \/ s_departure y <= s_arrival x).
 Proof. intros. split; [intros [A B C]; auto|intros (A & B & C); constructor; auto]. Qed.
 Print Assumptions C01_valid_unfold.
@@ -70,13 +71,13 @@ Section Statements.
     valid stations evs -> (forall e, ~ interface_error e) ->
     exists st, the_run = Done st /\ queue st = [] /\ (forall s, occ_get s (occ st) = None).
 
-  (* each session: exactly one Plugin entry, processed in period arrival; exactly one Unplug entry,
-     processed in period departure *)
+  (* each session (identified by session id and station): exactly one Plugin entry, processed in period
+     arrival; exactly one Unplug entry, processed in period departure *)
   Definition C01_once_stmt :=
     valid stations evs -> forall st, the_run = Done st ->
     forall x, In x (sessions_of evs) ->
-      List.length (filter (fun p => match snd p with EPlugin _ y => Z.eqb (sid y) (sid x) | _ => false end) (hist st)) = 1%nat /\
-      List.length (filter (fun p => match snd p with EUnplug _ y => Z.eqb (sid y) (sid x) | _ => false end) (hist st)) = 1%nat /\
+      List.length (filter (fun p => match snd p with EPlugin _ y => Z.eqb (sid y) (sid x) && Z.eqb (s_station y) (s_station x) | _ => false end) (hist st)) = 1%nat /\
+      List.length (filter (fun p => match snd p with EUnplug _ y => Z.eqb (sid y) (sid x) && Z.eqb (s_station y) (s_station x) | _ => false end) (hist st)) = 1%nat /\
       In (s_arrival x, EPlugin (s_arrival x) x) (hist st) /\
       In (s_departure x, EUnplug (s_departure x) x) (hist st).
 
@@ -202,19 +203,20 @@ Theorem C01_unplug_outcomes : forall N V stations (st : state N V) ts x,
 Proof. exact process_unplug_outcomes. Qed.
 Print Assumptions C01_unplug_outcomes.
 
-(* ---- non-vacuity: 3 stations, back-to-back reuse of station 1, four simultaneous events at t = 4
+(* ---- non-vacuity: 3 stations, back-to-back reuse of station 1, one session id used on two stations,
+        four simultaneous events at t = 4
         (two departures, two arrivals) plus a recompute at the same time ---- *)
 Definition ex_s (i st a d : Z) : session := mkSession i st a d d 1 10 0 7.
 Definition ex_events : list event :=
   [ EPlugin 0 (ex_s 11 1 0 4); EPlugin 4 (ex_s 12 1 4 6);      (* back-to-back on station 1 *)
-    EPlugin 2 (ex_s 21 2 2 4); EPlugin 4 (ex_s 31 3 4 5);      (* leaves at 4 / arrives at 4 *)
+    EPlugin 2 (ex_s 11 2 2 4); EPlugin 4 (ex_s 31 3 4 5);      (* id 11 again, on station 2; leaves at 4 / arrives at 4 *)
     ERecompute 4; EPlugin 6 (ex_s 22 2 6 9) ].
 
 Example C01_example_valid : valid [1; 2; 3] ex_events.
 Proof.
   apply C01_valid_unfold. split; [|split].
   - repeat constructor; simpl; lia.
-  - repeat constructor; simpl; intuition lia.
+  - repeat constructor; simpl; intuition discriminate.
   - simpl. intros x y Hx Hy.
     repeat (destruct Hx as [<-|Hx]; [|]); try contradiction;
     repeat (destruct Hy as [<-|Hy]; [|]); try contradiction; simpl; intros; try lia; try congruence.
@@ -228,7 +230,7 @@ Example C01_example_run :
   | Done st => iter st = 10 /\ queue st = [] /\ occ st = [] /\
                map (fun p => (fst p, ev_code (snd p), match ev_session (snd p) with Some x => sid x | None => -1 end))
                    (hist st)
-               = [(0, 0, 11); (2, 0, 21); (4, 1, 11); (4, 1, 21); (4, 0, 12); (4, 0, 31); (4, 2, -1);
+               = [(0, 0, 11); (2, 0, 11); (4, 1, 11); (4, 1, 11); (4, 0, 12); (4, 0, 31); (4, 2, -1);
                   (5, 1, 31); (6, 1, 12); (6, 0, 22); (9, 1, 22)] /\
                map fst (calls st) = [0; 2; 4; 5; 6; 8; 9]
   | _ => False
